@@ -887,3 +887,4 @@ def run(ctx):
     ctx.run_rule('C02.12', 'T13', 'conditions under which a parsed file is handed back or dropped (precondition ledger of the parser entry points)', r_parser_entry, prog)
     ctx.run_rule('C02.8b', 'T3', 'string literal escape machine', decisions.r_string_literal_escapes, prog)
     ctx.run_rule('C02.13', 'T2', 'a parsed file is handed back exactly when parsing succeeded without errors', decisions.r_parser_entries, prog, ('slice', 'preprocessor'))
+    ctx.run_rule('C02.8c', 'T3', 'string unescaping machine', decisions.r_unescape_machine, prog)
